@@ -223,22 +223,33 @@ var usedPorts = struct {
 }{m: map[int]bool{}}
 
 // freeUDPPort returns a loopback UDP port that was free a moment ago and that
-// this program has not handed out before.
+// this program has not handed out before. The port is released again before a
+// child process binds it, so it is taken from below the kernel's ephemeral
+// range (32768-60999): the sockets this program binds itself to port 0 (fake
+// gateways, query sockets) can then never land on it in the meantime and
+// receive another job's traffic.
+var nextPort = 20000 + (os.Getpid()%97)*101
+
 func freeUDPPort() (int, error) {
-	for try := 0; try < 50; try++ {
-		c, err := net.ListenUDP("udp4", &net.UDPAddr{IP: net.IPv4(127, 0, 0, 1)})
-		if err != nil {
-			return 0, err
-		}
-		port := c.LocalAddr().(*net.UDPAddr).Port
-		c.Close()
+	for try := 0; try < 2000; try++ {
 		usedPorts.Lock()
+		port := nextPort
+		nextPort++
+		if nextPort >= 32000 {
+			nextPort = 20000
+		}
 		dup := usedPorts.m[port]
 		usedPorts.m[port] = true
 		usedPorts.Unlock()
-		if !dup {
-			return port, nil
+		if dup {
+			continue
 		}
+		c, err := net.ListenUDP("udp4", &net.UDPAddr{IP: net.IPv4(127, 0, 0, 1), Port: port})
+		if err != nil {
+			continue
+		}
+		c.Close()
+		return port, nil
 	}
 	return 0, errors.New("no free UDP port")
 }
